@@ -1526,6 +1526,755 @@ def okd_Z_transimpedance (m : M2 K) (Z0 : K) : Prop := True
 theorem Z_transimpedance_sound : DerivedSound .Z .fwdTransimpedance (Z_transimpedance (K := K)) okd_Z_transimpedance :=
   fun m Z0 p o h => entry_sound .Z .fwdTransimpedance M2.a21 (by simp) m Z0 p h
 
+/-! ## 3b. Derived quantities have the same VALUE whichever representation they are computed from
+
+  The `X_attr_sound` theorems above say that each value meets its port definition; the port
+  definition determines the value as soon as some port of the two-port meets the premise with a
+  non-zero input (`DerivedSound.agree / unique`), and such a port always exists when the quantity
+  is defined (`pinPortA_spec`).  Hence `attr_agree`: any two representations of the same two-port
+  give the same value; `X_attr_agree` (160 instances): the value computed from representation X
+  equals the value computed from the chain matrix of the same two-port. -/
+
+/-- the port variable that a derived quantity requires to vanish / its output / its input -/
+def dPremise : Derived → Port K → K
+  | .Z1oc, p => p.I2 | .Z1sc, p => p.V2 | .Z2oc, p => p.I1 | .Z2sc, p => p.V1
+  | .Vgain12, p => p.I2 | .Vgain21, p => p.I1 | .Igain12, p => p.V2 | .Igain21, p => p.V1
+  | .fwdTransadmittance, p => p.V2 | .revTransadmittance, p => p.V1
+  | .fwdTransimpedance, p => p.I2 | .revTransimpedance, p => p.I1
+def dOut : Derived → Port K → K
+  | .Z1oc, p => p.V1 | .Z1sc, p => p.V1 | .Z2oc, p => p.V2 | .Z2sc, p => p.V2
+  | .Vgain12, p => p.V2 | .Vgain21, p => p.V1 | .Igain12, p => p.I2 | .Igain21, p => p.I1
+  | .fwdTransadmittance, p => p.I2 | .revTransadmittance, p => p.I1
+  | .fwdTransimpedance, p => p.V2 | .revTransimpedance, p => p.V1
+def dIn : Derived → Port K → K
+  | .Z1oc, p => p.I1 | .Z1sc, p => p.I1 | .Z2oc, p => p.I2 | .Z2sc, p => p.I2
+  | .Vgain12, p => p.V1 | .Vgain21, p => p.V2 | .Igain12, p => p.I1 | .Igain21, p => p.I2
+  | .fwdTransadmittance, p => p.V1 | .revTransadmittance, p => p.V2
+  | .fwdTransimpedance, p => p.I1 | .revTransimpedance, p => p.I2
+
+/-- (definition check) `Derived.holds` is "premise = 0 → out = q · in" -/
+theorem derived_holds_iff (d : Derived) (q : K) (p : Port K) :
+    d.holds q p ↔ (dPremise d p = 0 → dOut d p = q * dIn d p) := by
+  cases d <;> exact Iff.rfl
+
+/-- two values that both meet the port definition on a port with non-zero input coincide -/
+theorem DerivedSound.agree {X Q : Rep} {d : Derived} {q q' : M2 K → K → K} {ok ok' : M2 K → K → Prop}
+    (h : DerivedSound X d q ok) (h' : DerivedSound Q d q' ok') (m m' : M2 K) (Z0 : K)
+    (o : ok m Z0) (o' : ok' m' Z0)
+    (hex : ∃ p, rel X m Z0 p ∧ rel Q m' Z0 p ∧ dPremise d p = 0 ∧ dIn d p ≠ 0) :
+    q m Z0 = q' m' Z0 := by
+  obtain ⟨p, hp, hp', h0, hin⟩ := hex
+  have e1 := (derived_holds_iff d _ p).mp (h m Z0 p o hp) h0
+  have e2 := (derived_holds_iff d _ p).mp (h' m' Z0 p o' hp') h0
+  exact mul_right_cancel₀ hin (e1.symm.trans e2)
+
+/-- a soundness theorem determines the value of the attribute -/
+theorem DerivedSound.unique {X : Rep} {d : Derived} {q q' : M2 K → K → K} {ok ok' : M2 K → K → Prop}
+    (h : DerivedSound X d q ok) (h' : DerivedSound X d q' ok') (m : M2 K) (Z0 : K)
+    (o : ok m Z0) (o' : ok' m Z0)
+    (hex : ∃ p, rel X m Z0 p ∧ dPremise d p = 0 ∧ dIn d p ≠ 0) : q m Z0 = q' m Z0 := by
+  obtain ⟨p, hp, h0, hin⟩ := hex
+  exact DerivedSound.agree h h' m m Z0 o o' ⟨p, hp, hp, h0, hin⟩
+
+/-- the entry of the chain matrix that must be non-zero for the quantity to be defined -/
+def pinEntry : Derived → M2 K → K
+  | .Z1oc, a => a.a21 | .Z1sc, a => a.a22 | .Z2oc, a => a.a21 | .Z2sc, a => a.a11
+  | .Vgain12, a => a.a11 | .Vgain21, a => a.a22 | .Igain12, a => a.a22 | .Igain21, a => a.a11
+  | .fwdTransadmittance, a => a.a12 | .revTransadmittance, a => a.a12
+  | .fwdTransimpedance, a => a.a21 | .revTransimpedance, a => a.a21
+
+/-- a port of the two-port with chain matrix `a` that meets the premise, with input = `pinEntry` -/
+def pinPortA : Derived → M2 K → Port K
+  | .Z1oc, a => ⟨a.a11, a.a21, 1, 0⟩
+  | .Z1sc, a => ⟨a.a12, a.a22, 0, -1⟩
+  | .Z2oc, a => ⟨a.a11 * a.a22 - a.a12 * a.a21, 0, a.a22, a.a21⟩
+  | .Z2sc, a => ⟨0, a.a21 * a.a12 - a.a22 * a.a11, a.a12, a.a11⟩
+  | .Vgain12, a => ⟨a.a11, a.a21, 1, 0⟩
+  | .Vgain21, a => ⟨a.a11 * a.a22 - a.a12 * a.a21, 0, a.a22, a.a21⟩
+  | .Igain12, a => ⟨a.a12, a.a22, 0, -1⟩
+  | .Igain21, a => ⟨0, a.a21 * a.a12 - a.a22 * a.a11, a.a12, a.a11⟩
+  | .fwdTransadmittance, a => ⟨a.a12, a.a22, 0, -1⟩
+  | .revTransadmittance, a => ⟨0, a.a21 * a.a12 - a.a22 * a.a11, a.a12, a.a11⟩
+  | .fwdTransimpedance, a => ⟨a.a11, a.a21, 1, 0⟩
+  | .revTransimpedance, a => ⟨a.a11 * a.a22 - a.a12 * a.a21, 0, a.a22, a.a21⟩
+
+theorem pinPortA_spec (d : Derived) (a : M2 K) (Z0 : K) :
+    rel .A a Z0 (pinPortA d a) ∧ dPremise d (pinPortA d a) = 0 ∧ dIn d (pinPortA d a) = pinEntry d a := by
+  cases d <;> refine ⟨?_, rfl, rfl⟩ <;> simp only [rel, lin, pinPortA] <;> constructor <;> ring
+
+/-- THE CLAUSE OF THE PROPERTY: a derived quantity computed from matrices `m` (representation X)
+    and `m'` (representation Y) of the same two-port (chain matrix `a`) has the same value -/
+theorem attr_agree {X Q : Rep} {d : Derived} {q q' : M2 K → K → K} {ok ok' : M2 K → K → Prop}
+    (h : DerivedSound X d q ok) (h' : DerivedSound Q d q' ok') (m m' a : M2 K) (Z0 : K)
+    (o : ok m Z0) (o' : ok' m' Z0)
+    (hX : ∀ p, rel X m Z0 p ↔ rel .A a Z0 p) (hY : ∀ p, rel Q m' Z0 p ↔ rel .A a Z0 p)
+    (hpin : pinEntry d a ≠ 0) : q m Z0 = q' m' Z0 := by
+  obtain ⟨hr, h0, hin⟩ := pinPortA_spec d a Z0
+  exact DerivedSound.agree h h' m m' Z0 o o' ⟨pinPortA d a, (hX _).mpr hr, (hY _).mpr hr, h0, by rw [hin]; exact hpin⟩
+
+/-- … in particular across any conversion `f : X → P` of the library -/
+theorem attr_agree_conv {X P : Rep} {d : Derived} {q q' : M2 K → K → K} {ok ok' okf okg : M2 K → K → Prop}
+    {f g : M2 K → K → M2 K}
+    (h : DerivedSound X d q ok) (h' : DerivedSound P d q' ok') (hf : SoundConv X P f okf) (hg : SoundConv X .A g okg)
+    (m : M2 K) (Z0 : K) (o : ok m Z0) (o' : ok' (f m Z0) Z0) (of : okf m Z0) (og : okg m Z0)
+    (hpin : pinEntry d (g m Z0) ≠ 0) : q m Z0 = q' (f m Z0) Z0 :=
+  attr_agree h h' m (f m Z0) (g m Z0) Z0 o o' (fun p => hg m Z0 p og)
+    (fun p => by rw [← hf m Z0 p of]; exact hg m Z0 p og) hpin
+
+set_option hygiene false in
+macro "pin_of_okd" : tactic => `(tactic| (simpa [okd_A_Z1oc, okd_A_Z1sc, okd_A_Z2oc, okd_A_Z2sc, okd_A_Vgain12, okd_A_Vgain21, okd_A_Igain12, okd_A_Igain21, okd_A_forward_transadmittance, okd_A_reverse_transadmittance, okd_A_forward_transimpedance, okd_A_reverse_transimpedance, okd_A_voltage_gain, okd_A_forward_voltage_gain, okd_A_reverse_voltage_gain, okd_A_current_gain, okd_A_forward_current_gain, okd_A_reverse_current_gain, okd_A_transadmittance, okd_A_transimpedance, ok_A_Z, ok_A_Y, pinEntry] using od))
+
+theorem A_Z1oc_agree (m : M2 K) (Z0 : K) (o : okd_A_Z1oc m Z0) (oa : ok_A_A m Z0)
+    (od : okd_A_Z1oc (A_to_A m Z0) Z0) : A_Z1oc m Z0 = A_Z1oc (A_to_A m Z0) Z0 :=
+  attr_agree A_Z1oc_sound A_Z1oc_sound m _ _ Z0 o od (fun p => A_to_A_sound m Z0 p oa) (fun _ => Iff.rfl) (by pin_of_okd)
+
+theorem A_Z1sc_agree (m : M2 K) (Z0 : K) (o : okd_A_Z1sc m Z0) (oa : ok_A_A m Z0)
+    (od : okd_A_Z1sc (A_to_A m Z0) Z0) : A_Z1sc m Z0 = A_Z1sc (A_to_A m Z0) Z0 :=
+  attr_agree A_Z1sc_sound A_Z1sc_sound m _ _ Z0 o od (fun p => A_to_A_sound m Z0 p oa) (fun _ => Iff.rfl) (by pin_of_okd)
+
+theorem A_Z2oc_agree (m : M2 K) (Z0 : K) (o : okd_A_Z2oc m Z0) (oa : ok_A_A m Z0)
+    (od : okd_A_Z2oc (A_to_A m Z0) Z0) : A_Z2oc m Z0 = A_Z2oc (A_to_A m Z0) Z0 :=
+  attr_agree A_Z2oc_sound A_Z2oc_sound m _ _ Z0 o od (fun p => A_to_A_sound m Z0 p oa) (fun _ => Iff.rfl) (by pin_of_okd)
+
+theorem A_Z2sc_agree (m : M2 K) (Z0 : K) (o : okd_A_Z2sc m Z0) (oa : ok_A_A m Z0)
+    (od : okd_A_Z2sc (A_to_A m Z0) Z0) : A_Z2sc m Z0 = A_Z2sc (A_to_A m Z0) Z0 :=
+  attr_agree A_Z2sc_sound A_Z2sc_sound m _ _ Z0 o od (fun p => A_to_A_sound m Z0 p oa) (fun _ => Iff.rfl) (by pin_of_okd)
+
+theorem A_Vgain12_agree (m : M2 K) (Z0 : K) (o : okd_A_Vgain12 m Z0) (oa : ok_A_A m Z0)
+    (od : okd_A_Vgain12 (A_to_A m Z0) Z0) : A_Vgain12 m Z0 = A_Vgain12 (A_to_A m Z0) Z0 :=
+  attr_agree A_Vgain12_sound A_Vgain12_sound m _ _ Z0 o od (fun p => A_to_A_sound m Z0 p oa) (fun _ => Iff.rfl) (by pin_of_okd)
+
+theorem A_Vgain21_agree (m : M2 K) (Z0 : K) (o : okd_A_Vgain21 m Z0) (oa : ok_A_A m Z0)
+    (od : okd_A_Vgain21 (A_to_A m Z0) Z0) : A_Vgain21 m Z0 = A_Vgain21 (A_to_A m Z0) Z0 :=
+  attr_agree A_Vgain21_sound A_Vgain21_sound m _ _ Z0 o od (fun p => A_to_A_sound m Z0 p oa) (fun _ => Iff.rfl) (by pin_of_okd)
+
+theorem A_Igain12_agree (m : M2 K) (Z0 : K) (o : okd_A_Igain12 m Z0) (oa : ok_A_A m Z0)
+    (od : okd_A_Igain12 (A_to_A m Z0) Z0) : A_Igain12 m Z0 = A_Igain12 (A_to_A m Z0) Z0 :=
+  attr_agree A_Igain12_sound A_Igain12_sound m _ _ Z0 o od (fun p => A_to_A_sound m Z0 p oa) (fun _ => Iff.rfl) (by pin_of_okd)
+
+theorem A_Igain21_agree (m : M2 K) (Z0 : K) (o : okd_A_Igain21 m Z0) (oa : ok_A_A m Z0)
+    (od : okd_A_Igain21 (A_to_A m Z0) Z0) : A_Igain21 m Z0 = A_Igain21 (A_to_A m Z0) Z0 :=
+  attr_agree A_Igain21_sound A_Igain21_sound m _ _ Z0 o od (fun p => A_to_A_sound m Z0 p oa) (fun _ => Iff.rfl) (by pin_of_okd)
+
+theorem A_forward_transadmittance_agree (m : M2 K) (Z0 : K) (o : okd_A_forward_transadmittance m Z0) (oa : ok_A_A m Z0)
+    (od : okd_A_forward_transadmittance (A_to_A m Z0) Z0) : A_forward_transadmittance m Z0 = A_forward_transadmittance (A_to_A m Z0) Z0 :=
+  attr_agree A_forward_transadmittance_sound A_forward_transadmittance_sound m _ _ Z0 o od (fun p => A_to_A_sound m Z0 p oa) (fun _ => Iff.rfl) (by pin_of_okd)
+
+theorem A_reverse_transadmittance_agree (m : M2 K) (Z0 : K) (o : okd_A_reverse_transadmittance m Z0) (oa : ok_A_A m Z0)
+    (od : okd_A_reverse_transadmittance (A_to_A m Z0) Z0) : A_reverse_transadmittance m Z0 = A_reverse_transadmittance (A_to_A m Z0) Z0 :=
+  attr_agree A_reverse_transadmittance_sound A_reverse_transadmittance_sound m _ _ Z0 o od (fun p => A_to_A_sound m Z0 p oa) (fun _ => Iff.rfl) (by pin_of_okd)
+
+theorem A_forward_transimpedance_agree (m : M2 K) (Z0 : K) (o : okd_A_forward_transimpedance m Z0) (oa : ok_A_A m Z0)
+    (od : okd_A_forward_transimpedance (A_to_A m Z0) Z0) : A_forward_transimpedance m Z0 = A_forward_transimpedance (A_to_A m Z0) Z0 :=
+  attr_agree A_forward_transimpedance_sound A_forward_transimpedance_sound m _ _ Z0 o od (fun p => A_to_A_sound m Z0 p oa) (fun _ => Iff.rfl) (by pin_of_okd)
+
+theorem A_reverse_transimpedance_agree (m : M2 K) (Z0 : K) (o : okd_A_reverse_transimpedance m Z0) (oa : ok_A_A m Z0)
+    (od : okd_A_reverse_transimpedance (A_to_A m Z0) Z0) : A_reverse_transimpedance m Z0 = A_reverse_transimpedance (A_to_A m Z0) Z0 :=
+  attr_agree A_reverse_transimpedance_sound A_reverse_transimpedance_sound m _ _ Z0 o od (fun p => A_to_A_sound m Z0 p oa) (fun _ => Iff.rfl) (by pin_of_okd)
+
+theorem A_voltage_gain_agree (m : M2 K) (Z0 : K) (o : okd_A_voltage_gain m Z0) (oa : ok_A_A m Z0)
+    (od : okd_A_voltage_gain (A_to_A m Z0) Z0) : A_voltage_gain m Z0 = A_voltage_gain (A_to_A m Z0) Z0 :=
+  attr_agree A_voltage_gain_sound A_voltage_gain_sound m _ _ Z0 o od (fun p => A_to_A_sound m Z0 p oa) (fun _ => Iff.rfl) (by pin_of_okd)
+
+theorem A_forward_voltage_gain_agree (m : M2 K) (Z0 : K) (o : okd_A_forward_voltage_gain m Z0) (oa : ok_A_A m Z0)
+    (od : okd_A_forward_voltage_gain (A_to_A m Z0) Z0) : A_forward_voltage_gain m Z0 = A_forward_voltage_gain (A_to_A m Z0) Z0 :=
+  attr_agree A_forward_voltage_gain_sound A_forward_voltage_gain_sound m _ _ Z0 o od (fun p => A_to_A_sound m Z0 p oa) (fun _ => Iff.rfl) (by pin_of_okd)
+
+theorem A_reverse_voltage_gain_agree (m : M2 K) (Z0 : K) (o : okd_A_reverse_voltage_gain m Z0) (oa : ok_A_A m Z0)
+    (od : okd_A_reverse_voltage_gain (A_to_A m Z0) Z0) : A_reverse_voltage_gain m Z0 = A_reverse_voltage_gain (A_to_A m Z0) Z0 :=
+  attr_agree A_reverse_voltage_gain_sound A_reverse_voltage_gain_sound m _ _ Z0 o od (fun p => A_to_A_sound m Z0 p oa) (fun _ => Iff.rfl) (by pin_of_okd)
+
+theorem A_current_gain_agree (m : M2 K) (Z0 : K) (o : okd_A_current_gain m Z0) (oa : ok_A_A m Z0)
+    (od : okd_A_current_gain (A_to_A m Z0) Z0) : A_current_gain m Z0 = A_current_gain (A_to_A m Z0) Z0 :=
+  attr_agree A_current_gain_sound A_current_gain_sound m _ _ Z0 o od (fun p => A_to_A_sound m Z0 p oa) (fun _ => Iff.rfl) (by pin_of_okd)
+
+theorem A_forward_current_gain_agree (m : M2 K) (Z0 : K) (o : okd_A_forward_current_gain m Z0) (oa : ok_A_A m Z0)
+    (od : okd_A_forward_current_gain (A_to_A m Z0) Z0) : A_forward_current_gain m Z0 = A_forward_current_gain (A_to_A m Z0) Z0 :=
+  attr_agree A_forward_current_gain_sound A_forward_current_gain_sound m _ _ Z0 o od (fun p => A_to_A_sound m Z0 p oa) (fun _ => Iff.rfl) (by pin_of_okd)
+
+theorem A_reverse_current_gain_agree (m : M2 K) (Z0 : K) (o : okd_A_reverse_current_gain m Z0) (oa : ok_A_A m Z0)
+    (od : okd_A_reverse_current_gain (A_to_A m Z0) Z0) : A_reverse_current_gain m Z0 = A_reverse_current_gain (A_to_A m Z0) Z0 :=
+  attr_agree A_reverse_current_gain_sound A_reverse_current_gain_sound m _ _ Z0 o od (fun p => A_to_A_sound m Z0 p oa) (fun _ => Iff.rfl) (by pin_of_okd)
+
+theorem A_transadmittance_agree (m : M2 K) (Z0 : K) (o : okd_A_transadmittance m Z0) (oa : ok_A_A m Z0)
+    (od : okd_A_transadmittance (A_to_A m Z0) Z0) : A_transadmittance m Z0 = A_transadmittance (A_to_A m Z0) Z0 :=
+  attr_agree A_transadmittance_sound A_transadmittance_sound m _ _ Z0 o od (fun p => A_to_A_sound m Z0 p oa) (fun _ => Iff.rfl) (by pin_of_okd)
+
+theorem A_transimpedance_agree (m : M2 K) (Z0 : K) (o : okd_A_transimpedance m Z0) (oa : ok_A_A m Z0)
+    (od : okd_A_transimpedance (A_to_A m Z0) Z0) : A_transimpedance m Z0 = A_transimpedance (A_to_A m Z0) Z0 :=
+  attr_agree A_transimpedance_sound A_transimpedance_sound m _ _ Z0 o od (fun p => A_to_A_sound m Z0 p oa) (fun _ => Iff.rfl) (by pin_of_okd)
+
+theorem B_Z1oc_agree (m : M2 K) (Z0 : K) (o : okd_B_Z1oc m Z0) (oa : ok_B_A m Z0)
+    (od : okd_A_Z1oc (B_to_A m Z0) Z0) : B_Z1oc m Z0 = A_Z1oc (B_to_A m Z0) Z0 :=
+  attr_agree B_Z1oc_sound A_Z1oc_sound m _ _ Z0 o od (fun p => B_to_A_sound m Z0 p oa) (fun _ => Iff.rfl) (by pin_of_okd)
+
+theorem B_Z1sc_agree (m : M2 K) (Z0 : K) (o : okd_B_Z1sc m Z0) (oa : ok_B_A m Z0)
+    (od : okd_A_Z1sc (B_to_A m Z0) Z0) : B_Z1sc m Z0 = A_Z1sc (B_to_A m Z0) Z0 :=
+  attr_agree B_Z1sc_sound A_Z1sc_sound m _ _ Z0 o od (fun p => B_to_A_sound m Z0 p oa) (fun _ => Iff.rfl) (by pin_of_okd)
+
+theorem B_Z2oc_agree (m : M2 K) (Z0 : K) (o : okd_B_Z2oc m Z0) (oa : ok_B_A m Z0)
+    (od : okd_A_Z2oc (B_to_A m Z0) Z0) : B_Z2oc m Z0 = A_Z2oc (B_to_A m Z0) Z0 :=
+  attr_agree B_Z2oc_sound A_Z2oc_sound m _ _ Z0 o od (fun p => B_to_A_sound m Z0 p oa) (fun _ => Iff.rfl) (by pin_of_okd)
+
+theorem B_Z2sc_agree (m : M2 K) (Z0 : K) (o : okd_B_Z2sc m Z0) (oa : ok_B_A m Z0)
+    (od : okd_A_Z2sc (B_to_A m Z0) Z0) : B_Z2sc m Z0 = A_Z2sc (B_to_A m Z0) Z0 :=
+  attr_agree B_Z2sc_sound A_Z2sc_sound m _ _ Z0 o od (fun p => B_to_A_sound m Z0 p oa) (fun _ => Iff.rfl) (by pin_of_okd)
+
+theorem B_Vgain12_agree (m : M2 K) (Z0 : K) (o : okd_B_Vgain12 m Z0) (oa : ok_B_A m Z0)
+    (od : okd_A_Vgain12 (B_to_A m Z0) Z0) : B_Vgain12 m Z0 = A_Vgain12 (B_to_A m Z0) Z0 :=
+  attr_agree B_Vgain12_sound A_Vgain12_sound m _ _ Z0 o od (fun p => B_to_A_sound m Z0 p oa) (fun _ => Iff.rfl) (by pin_of_okd)
+
+theorem B_Vgain21_agree (m : M2 K) (Z0 : K) (o : okd_B_Vgain21 m Z0) (oa : ok_B_A m Z0)
+    (od : okd_A_Vgain21 (B_to_A m Z0) Z0) : B_Vgain21 m Z0 = A_Vgain21 (B_to_A m Z0) Z0 :=
+  attr_agree B_Vgain21_sound A_Vgain21_sound m _ _ Z0 o od (fun p => B_to_A_sound m Z0 p oa) (fun _ => Iff.rfl) (by pin_of_okd)
+
+theorem B_Igain12_agree (m : M2 K) (Z0 : K) (o : okd_B_Igain12 m Z0) (oa : ok_B_A m Z0)
+    (od : okd_A_Igain12 (B_to_A m Z0) Z0) : B_Igain12 m Z0 = A_Igain12 (B_to_A m Z0) Z0 :=
+  attr_agree B_Igain12_sound A_Igain12_sound m _ _ Z0 o od (fun p => B_to_A_sound m Z0 p oa) (fun _ => Iff.rfl) (by pin_of_okd)
+
+theorem B_Igain21_agree (m : M2 K) (Z0 : K) (o : okd_B_Igain21 m Z0) (oa : ok_B_A m Z0)
+    (od : okd_A_Igain21 (B_to_A m Z0) Z0) : B_Igain21 m Z0 = A_Igain21 (B_to_A m Z0) Z0 :=
+  attr_agree B_Igain21_sound A_Igain21_sound m _ _ Z0 o od (fun p => B_to_A_sound m Z0 p oa) (fun _ => Iff.rfl) (by pin_of_okd)
+
+theorem B_forward_transadmittance_agree (m : M2 K) (Z0 : K) (o : okd_B_forward_transadmittance m Z0) (oa : ok_B_A m Z0)
+    (od : okd_A_forward_transadmittance (B_to_A m Z0) Z0) : B_forward_transadmittance m Z0 = A_forward_transadmittance (B_to_A m Z0) Z0 :=
+  attr_agree B_forward_transadmittance_sound A_forward_transadmittance_sound m _ _ Z0 o od (fun p => B_to_A_sound m Z0 p oa) (fun _ => Iff.rfl) (by pin_of_okd)
+
+theorem B_reverse_transadmittance_agree (m : M2 K) (Z0 : K) (o : okd_B_reverse_transadmittance m Z0) (oa : ok_B_A m Z0)
+    (od : okd_A_reverse_transadmittance (B_to_A m Z0) Z0) : B_reverse_transadmittance m Z0 = A_reverse_transadmittance (B_to_A m Z0) Z0 :=
+  attr_agree B_reverse_transadmittance_sound A_reverse_transadmittance_sound m _ _ Z0 o od (fun p => B_to_A_sound m Z0 p oa) (fun _ => Iff.rfl) (by pin_of_okd)
+
+theorem B_forward_transimpedance_agree (m : M2 K) (Z0 : K) (o : okd_B_forward_transimpedance m Z0) (oa : ok_B_A m Z0)
+    (od : okd_A_forward_transimpedance (B_to_A m Z0) Z0) : B_forward_transimpedance m Z0 = A_forward_transimpedance (B_to_A m Z0) Z0 :=
+  attr_agree B_forward_transimpedance_sound A_forward_transimpedance_sound m _ _ Z0 o od (fun p => B_to_A_sound m Z0 p oa) (fun _ => Iff.rfl) (by pin_of_okd)
+
+theorem B_reverse_transimpedance_agree (m : M2 K) (Z0 : K) (o : okd_B_reverse_transimpedance m Z0) (oa : ok_B_A m Z0)
+    (od : okd_A_reverse_transimpedance (B_to_A m Z0) Z0) : B_reverse_transimpedance m Z0 = A_reverse_transimpedance (B_to_A m Z0) Z0 :=
+  attr_agree B_reverse_transimpedance_sound A_reverse_transimpedance_sound m _ _ Z0 o od (fun p => B_to_A_sound m Z0 p oa) (fun _ => Iff.rfl) (by pin_of_okd)
+
+theorem B_voltage_gain_agree (m : M2 K) (Z0 : K) (o : okd_B_voltage_gain m Z0) (oa : ok_B_A m Z0)
+    (od : okd_A_voltage_gain (B_to_A m Z0) Z0) : B_voltage_gain m Z0 = A_voltage_gain (B_to_A m Z0) Z0 :=
+  attr_agree B_voltage_gain_sound A_voltage_gain_sound m _ _ Z0 o od (fun p => B_to_A_sound m Z0 p oa) (fun _ => Iff.rfl) (by pin_of_okd)
+
+theorem B_forward_voltage_gain_agree (m : M2 K) (Z0 : K) (o : okd_B_forward_voltage_gain m Z0) (oa : ok_B_A m Z0)
+    (od : okd_A_forward_voltage_gain (B_to_A m Z0) Z0) : B_forward_voltage_gain m Z0 = A_forward_voltage_gain (B_to_A m Z0) Z0 :=
+  attr_agree B_forward_voltage_gain_sound A_forward_voltage_gain_sound m _ _ Z0 o od (fun p => B_to_A_sound m Z0 p oa) (fun _ => Iff.rfl) (by pin_of_okd)
+
+theorem B_reverse_voltage_gain_agree (m : M2 K) (Z0 : K) (o : okd_B_reverse_voltage_gain m Z0) (oa : ok_B_A m Z0)
+    (od : okd_A_reverse_voltage_gain (B_to_A m Z0) Z0) : B_reverse_voltage_gain m Z0 = A_reverse_voltage_gain (B_to_A m Z0) Z0 :=
+  attr_agree B_reverse_voltage_gain_sound A_reverse_voltage_gain_sound m _ _ Z0 o od (fun p => B_to_A_sound m Z0 p oa) (fun _ => Iff.rfl) (by pin_of_okd)
+
+theorem B_current_gain_agree (m : M2 K) (Z0 : K) (o : okd_B_current_gain m Z0) (oa : ok_B_A m Z0)
+    (od : okd_A_current_gain (B_to_A m Z0) Z0) : B_current_gain m Z0 = A_current_gain (B_to_A m Z0) Z0 :=
+  attr_agree B_current_gain_sound A_current_gain_sound m _ _ Z0 o od (fun p => B_to_A_sound m Z0 p oa) (fun _ => Iff.rfl) (by pin_of_okd)
+
+theorem B_forward_current_gain_agree (m : M2 K) (Z0 : K) (o : okd_B_forward_current_gain m Z0) (oa : ok_B_A m Z0)
+    (od : okd_A_forward_current_gain (B_to_A m Z0) Z0) : B_forward_current_gain m Z0 = A_forward_current_gain (B_to_A m Z0) Z0 :=
+  attr_agree B_forward_current_gain_sound A_forward_current_gain_sound m _ _ Z0 o od (fun p => B_to_A_sound m Z0 p oa) (fun _ => Iff.rfl) (by pin_of_okd)
+
+theorem B_reverse_current_gain_agree (m : M2 K) (Z0 : K) (o : okd_B_reverse_current_gain m Z0) (oa : ok_B_A m Z0)
+    (od : okd_A_reverse_current_gain (B_to_A m Z0) Z0) : B_reverse_current_gain m Z0 = A_reverse_current_gain (B_to_A m Z0) Z0 :=
+  attr_agree B_reverse_current_gain_sound A_reverse_current_gain_sound m _ _ Z0 o od (fun p => B_to_A_sound m Z0 p oa) (fun _ => Iff.rfl) (by pin_of_okd)
+
+theorem B_transadmittance_agree (m : M2 K) (Z0 : K) (o : okd_B_transadmittance m Z0) (oa : ok_B_A m Z0)
+    (od : okd_A_transadmittance (B_to_A m Z0) Z0) : B_transadmittance m Z0 = A_transadmittance (B_to_A m Z0) Z0 :=
+  attr_agree B_transadmittance_sound A_transadmittance_sound m _ _ Z0 o od (fun p => B_to_A_sound m Z0 p oa) (fun _ => Iff.rfl) (by pin_of_okd)
+
+theorem B_transimpedance_agree (m : M2 K) (Z0 : K) (o : okd_B_transimpedance m Z0) (oa : ok_B_A m Z0)
+    (od : okd_A_transimpedance (B_to_A m Z0) Z0) : B_transimpedance m Z0 = A_transimpedance (B_to_A m Z0) Z0 :=
+  attr_agree B_transimpedance_sound A_transimpedance_sound m _ _ Z0 o od (fun p => B_to_A_sound m Z0 p oa) (fun _ => Iff.rfl) (by pin_of_okd)
+
+theorem G_Z1oc_agree (m : M2 K) (Z0 : K) (o : okd_G_Z1oc m Z0) (oa : ok_G_A m Z0)
+    (od : okd_A_Z1oc (G_to_A m Z0) Z0) : G_Z1oc m Z0 = A_Z1oc (G_to_A m Z0) Z0 :=
+  attr_agree G_Z1oc_sound A_Z1oc_sound m _ _ Z0 o od (fun p => G_to_A_sound m Z0 p oa) (fun _ => Iff.rfl) (by pin_of_okd)
+
+theorem G_Z1sc_agree (m : M2 K) (Z0 : K) (o : okd_G_Z1sc m Z0) (oa : ok_G_A m Z0)
+    (od : okd_A_Z1sc (G_to_A m Z0) Z0) : G_Z1sc m Z0 = A_Z1sc (G_to_A m Z0) Z0 :=
+  attr_agree G_Z1sc_sound A_Z1sc_sound m _ _ Z0 o od (fun p => G_to_A_sound m Z0 p oa) (fun _ => Iff.rfl) (by pin_of_okd)
+
+theorem G_Z2oc_agree (m : M2 K) (Z0 : K) (o : okd_G_Z2oc m Z0) (oa : ok_G_A m Z0)
+    (od : okd_A_Z2oc (G_to_A m Z0) Z0) : G_Z2oc m Z0 = A_Z2oc (G_to_A m Z0) Z0 :=
+  attr_agree G_Z2oc_sound A_Z2oc_sound m _ _ Z0 o od (fun p => G_to_A_sound m Z0 p oa) (fun _ => Iff.rfl) (by pin_of_okd)
+
+theorem G_Z2sc_agree (m : M2 K) (Z0 : K) (o : okd_G_Z2sc m Z0) (oa : ok_G_A m Z0)
+    (od : okd_A_Z2sc (G_to_A m Z0) Z0) : G_Z2sc m Z0 = A_Z2sc (G_to_A m Z0) Z0 :=
+  attr_agree G_Z2sc_sound A_Z2sc_sound m _ _ Z0 o od (fun p => G_to_A_sound m Z0 p oa) (fun _ => Iff.rfl) (by pin_of_okd)
+
+theorem G_Vgain12_agree (m : M2 K) (Z0 : K) (o : okd_G_Vgain12 m Z0) (oa : ok_G_A m Z0)
+    (od : okd_A_Vgain12 (G_to_A m Z0) Z0) : G_Vgain12 m Z0 = A_Vgain12 (G_to_A m Z0) Z0 :=
+  attr_agree G_Vgain12_sound A_Vgain12_sound m _ _ Z0 o od (fun p => G_to_A_sound m Z0 p oa) (fun _ => Iff.rfl) (by pin_of_okd)
+
+theorem G_Vgain21_agree (m : M2 K) (Z0 : K) (o : okd_G_Vgain21 m Z0) (oa : ok_G_A m Z0)
+    (od : okd_A_Vgain21 (G_to_A m Z0) Z0) : G_Vgain21 m Z0 = A_Vgain21 (G_to_A m Z0) Z0 :=
+  attr_agree G_Vgain21_sound A_Vgain21_sound m _ _ Z0 o od (fun p => G_to_A_sound m Z0 p oa) (fun _ => Iff.rfl) (by pin_of_okd)
+
+theorem G_Igain12_agree (m : M2 K) (Z0 : K) (o : okd_G_Igain12 m Z0) (oa : ok_G_A m Z0)
+    (od : okd_A_Igain12 (G_to_A m Z0) Z0) : G_Igain12 m Z0 = A_Igain12 (G_to_A m Z0) Z0 :=
+  attr_agree G_Igain12_sound A_Igain12_sound m _ _ Z0 o od (fun p => G_to_A_sound m Z0 p oa) (fun _ => Iff.rfl) (by pin_of_okd)
+
+theorem G_Igain21_agree (m : M2 K) (Z0 : K) (o : okd_G_Igain21 m Z0) (oa : ok_G_A m Z0)
+    (od : okd_A_Igain21 (G_to_A m Z0) Z0) : G_Igain21 m Z0 = A_Igain21 (G_to_A m Z0) Z0 :=
+  attr_agree G_Igain21_sound A_Igain21_sound m _ _ Z0 o od (fun p => G_to_A_sound m Z0 p oa) (fun _ => Iff.rfl) (by pin_of_okd)
+
+theorem G_forward_transadmittance_agree (m : M2 K) (Z0 : K) (o : okd_G_forward_transadmittance m Z0) (oa : ok_G_A m Z0)
+    (od : okd_A_forward_transadmittance (G_to_A m Z0) Z0) : G_forward_transadmittance m Z0 = A_forward_transadmittance (G_to_A m Z0) Z0 :=
+  attr_agree G_forward_transadmittance_sound A_forward_transadmittance_sound m _ _ Z0 o od (fun p => G_to_A_sound m Z0 p oa) (fun _ => Iff.rfl) (by pin_of_okd)
+
+theorem G_reverse_transadmittance_agree (m : M2 K) (Z0 : K) (o : okd_G_reverse_transadmittance m Z0) (oa : ok_G_A m Z0)
+    (od : okd_A_reverse_transadmittance (G_to_A m Z0) Z0) : G_reverse_transadmittance m Z0 = A_reverse_transadmittance (G_to_A m Z0) Z0 :=
+  attr_agree G_reverse_transadmittance_sound A_reverse_transadmittance_sound m _ _ Z0 o od (fun p => G_to_A_sound m Z0 p oa) (fun _ => Iff.rfl) (by pin_of_okd)
+
+theorem G_forward_transimpedance_agree (m : M2 K) (Z0 : K) (o : okd_G_forward_transimpedance m Z0) (oa : ok_G_A m Z0)
+    (od : okd_A_forward_transimpedance (G_to_A m Z0) Z0) : G_forward_transimpedance m Z0 = A_forward_transimpedance (G_to_A m Z0) Z0 :=
+  attr_agree G_forward_transimpedance_sound A_forward_transimpedance_sound m _ _ Z0 o od (fun p => G_to_A_sound m Z0 p oa) (fun _ => Iff.rfl) (by pin_of_okd)
+
+theorem G_reverse_transimpedance_agree (m : M2 K) (Z0 : K) (o : okd_G_reverse_transimpedance m Z0) (oa : ok_G_A m Z0)
+    (od : okd_A_reverse_transimpedance (G_to_A m Z0) Z0) : G_reverse_transimpedance m Z0 = A_reverse_transimpedance (G_to_A m Z0) Z0 :=
+  attr_agree G_reverse_transimpedance_sound A_reverse_transimpedance_sound m _ _ Z0 o od (fun p => G_to_A_sound m Z0 p oa) (fun _ => Iff.rfl) (by pin_of_okd)
+
+theorem G_voltage_gain_agree (m : M2 K) (Z0 : K) (o : okd_G_voltage_gain m Z0) (oa : ok_G_A m Z0)
+    (od : okd_A_voltage_gain (G_to_A m Z0) Z0) : G_voltage_gain m Z0 = A_voltage_gain (G_to_A m Z0) Z0 :=
+  attr_agree G_voltage_gain_sound A_voltage_gain_sound m _ _ Z0 o od (fun p => G_to_A_sound m Z0 p oa) (fun _ => Iff.rfl) (by pin_of_okd)
+
+theorem G_forward_voltage_gain_agree (m : M2 K) (Z0 : K) (o : okd_G_forward_voltage_gain m Z0) (oa : ok_G_A m Z0)
+    (od : okd_A_forward_voltage_gain (G_to_A m Z0) Z0) : G_forward_voltage_gain m Z0 = A_forward_voltage_gain (G_to_A m Z0) Z0 :=
+  attr_agree G_forward_voltage_gain_sound A_forward_voltage_gain_sound m _ _ Z0 o od (fun p => G_to_A_sound m Z0 p oa) (fun _ => Iff.rfl) (by pin_of_okd)
+
+theorem G_reverse_voltage_gain_agree (m : M2 K) (Z0 : K) (o : okd_G_reverse_voltage_gain m Z0) (oa : ok_G_A m Z0)
+    (od : okd_A_reverse_voltage_gain (G_to_A m Z0) Z0) : G_reverse_voltage_gain m Z0 = A_reverse_voltage_gain (G_to_A m Z0) Z0 :=
+  attr_agree G_reverse_voltage_gain_sound A_reverse_voltage_gain_sound m _ _ Z0 o od (fun p => G_to_A_sound m Z0 p oa) (fun _ => Iff.rfl) (by pin_of_okd)
+
+theorem G_current_gain_agree (m : M2 K) (Z0 : K) (o : okd_G_current_gain m Z0) (oa : ok_G_A m Z0)
+    (od : okd_A_current_gain (G_to_A m Z0) Z0) : G_current_gain m Z0 = A_current_gain (G_to_A m Z0) Z0 :=
+  attr_agree G_current_gain_sound A_current_gain_sound m _ _ Z0 o od (fun p => G_to_A_sound m Z0 p oa) (fun _ => Iff.rfl) (by pin_of_okd)
+
+theorem G_forward_current_gain_agree (m : M2 K) (Z0 : K) (o : okd_G_forward_current_gain m Z0) (oa : ok_G_A m Z0)
+    (od : okd_A_forward_current_gain (G_to_A m Z0) Z0) : G_forward_current_gain m Z0 = A_forward_current_gain (G_to_A m Z0) Z0 :=
+  attr_agree G_forward_current_gain_sound A_forward_current_gain_sound m _ _ Z0 o od (fun p => G_to_A_sound m Z0 p oa) (fun _ => Iff.rfl) (by pin_of_okd)
+
+theorem G_reverse_current_gain_agree (m : M2 K) (Z0 : K) (o : okd_G_reverse_current_gain m Z0) (oa : ok_G_A m Z0)
+    (od : okd_A_reverse_current_gain (G_to_A m Z0) Z0) : G_reverse_current_gain m Z0 = A_reverse_current_gain (G_to_A m Z0) Z0 :=
+  attr_agree G_reverse_current_gain_sound A_reverse_current_gain_sound m _ _ Z0 o od (fun p => G_to_A_sound m Z0 p oa) (fun _ => Iff.rfl) (by pin_of_okd)
+
+theorem G_transadmittance_agree (m : M2 K) (Z0 : K) (o : okd_G_transadmittance m Z0) (oa : ok_G_A m Z0)
+    (od : okd_A_transadmittance (G_to_A m Z0) Z0) : G_transadmittance m Z0 = A_transadmittance (G_to_A m Z0) Z0 :=
+  attr_agree G_transadmittance_sound A_transadmittance_sound m _ _ Z0 o od (fun p => G_to_A_sound m Z0 p oa) (fun _ => Iff.rfl) (by pin_of_okd)
+
+theorem G_transimpedance_agree (m : M2 K) (Z0 : K) (o : okd_G_transimpedance m Z0) (oa : ok_G_A m Z0)
+    (od : okd_A_transimpedance (G_to_A m Z0) Z0) : G_transimpedance m Z0 = A_transimpedance (G_to_A m Z0) Z0 :=
+  attr_agree G_transimpedance_sound A_transimpedance_sound m _ _ Z0 o od (fun p => G_to_A_sound m Z0 p oa) (fun _ => Iff.rfl) (by pin_of_okd)
+
+theorem H_Z1oc_agree (m : M2 K) (Z0 : K) (o : okd_H_Z1oc m Z0) (oa : ok_H_A m Z0)
+    (od : okd_A_Z1oc (H_to_A m Z0) Z0) : H_Z1oc m Z0 = A_Z1oc (H_to_A m Z0) Z0 :=
+  attr_agree H_Z1oc_sound A_Z1oc_sound m _ _ Z0 o od (fun p => H_to_A_sound m Z0 p oa) (fun _ => Iff.rfl) (by pin_of_okd)
+
+theorem H_Z1sc_agree (m : M2 K) (Z0 : K) (o : okd_H_Z1sc m Z0) (oa : ok_H_A m Z0)
+    (od : okd_A_Z1sc (H_to_A m Z0) Z0) : H_Z1sc m Z0 = A_Z1sc (H_to_A m Z0) Z0 :=
+  attr_agree H_Z1sc_sound A_Z1sc_sound m _ _ Z0 o od (fun p => H_to_A_sound m Z0 p oa) (fun _ => Iff.rfl) (by pin_of_okd)
+
+theorem H_Z2oc_agree (m : M2 K) (Z0 : K) (o : okd_H_Z2oc m Z0) (oa : ok_H_A m Z0)
+    (od : okd_A_Z2oc (H_to_A m Z0) Z0) : H_Z2oc m Z0 = A_Z2oc (H_to_A m Z0) Z0 :=
+  attr_agree H_Z2oc_sound A_Z2oc_sound m _ _ Z0 o od (fun p => H_to_A_sound m Z0 p oa) (fun _ => Iff.rfl) (by pin_of_okd)
+
+theorem H_Z2sc_agree (m : M2 K) (Z0 : K) (o : okd_H_Z2sc m Z0) (oa : ok_H_A m Z0)
+    (od : okd_A_Z2sc (H_to_A m Z0) Z0) : H_Z2sc m Z0 = A_Z2sc (H_to_A m Z0) Z0 :=
+  attr_agree H_Z2sc_sound A_Z2sc_sound m _ _ Z0 o od (fun p => H_to_A_sound m Z0 p oa) (fun _ => Iff.rfl) (by pin_of_okd)
+
+theorem H_Vgain12_agree (m : M2 K) (Z0 : K) (o : okd_H_Vgain12 m Z0) (oa : ok_H_A m Z0)
+    (od : okd_A_Vgain12 (H_to_A m Z0) Z0) : H_Vgain12 m Z0 = A_Vgain12 (H_to_A m Z0) Z0 :=
+  attr_agree H_Vgain12_sound A_Vgain12_sound m _ _ Z0 o od (fun p => H_to_A_sound m Z0 p oa) (fun _ => Iff.rfl) (by pin_of_okd)
+
+theorem H_Vgain21_agree (m : M2 K) (Z0 : K) (o : okd_H_Vgain21 m Z0) (oa : ok_H_A m Z0)
+    (od : okd_A_Vgain21 (H_to_A m Z0) Z0) : H_Vgain21 m Z0 = A_Vgain21 (H_to_A m Z0) Z0 :=
+  attr_agree H_Vgain21_sound A_Vgain21_sound m _ _ Z0 o od (fun p => H_to_A_sound m Z0 p oa) (fun _ => Iff.rfl) (by pin_of_okd)
+
+theorem H_Igain12_agree (m : M2 K) (Z0 : K) (o : okd_H_Igain12 m Z0) (oa : ok_H_A m Z0)
+    (od : okd_A_Igain12 (H_to_A m Z0) Z0) : H_Igain12 m Z0 = A_Igain12 (H_to_A m Z0) Z0 :=
+  attr_agree H_Igain12_sound A_Igain12_sound m _ _ Z0 o od (fun p => H_to_A_sound m Z0 p oa) (fun _ => Iff.rfl) (by pin_of_okd)
+
+theorem H_Igain21_agree (m : M2 K) (Z0 : K) (o : okd_H_Igain21 m Z0) (oa : ok_H_A m Z0)
+    (od : okd_A_Igain21 (H_to_A m Z0) Z0) : H_Igain21 m Z0 = A_Igain21 (H_to_A m Z0) Z0 :=
+  attr_agree H_Igain21_sound A_Igain21_sound m _ _ Z0 o od (fun p => H_to_A_sound m Z0 p oa) (fun _ => Iff.rfl) (by pin_of_okd)
+
+theorem H_forward_transadmittance_agree (m : M2 K) (Z0 : K) (o : okd_H_forward_transadmittance m Z0) (oa : ok_H_A m Z0)
+    (od : okd_A_forward_transadmittance (H_to_A m Z0) Z0) : H_forward_transadmittance m Z0 = A_forward_transadmittance (H_to_A m Z0) Z0 :=
+  attr_agree H_forward_transadmittance_sound A_forward_transadmittance_sound m _ _ Z0 o od (fun p => H_to_A_sound m Z0 p oa) (fun _ => Iff.rfl) (by pin_of_okd)
+
+theorem H_reverse_transadmittance_agree (m : M2 K) (Z0 : K) (o : okd_H_reverse_transadmittance m Z0) (oa : ok_H_A m Z0)
+    (od : okd_A_reverse_transadmittance (H_to_A m Z0) Z0) : H_reverse_transadmittance m Z0 = A_reverse_transadmittance (H_to_A m Z0) Z0 :=
+  attr_agree H_reverse_transadmittance_sound A_reverse_transadmittance_sound m _ _ Z0 o od (fun p => H_to_A_sound m Z0 p oa) (fun _ => Iff.rfl) (by pin_of_okd)
+
+theorem H_forward_transimpedance_agree (m : M2 K) (Z0 : K) (o : okd_H_forward_transimpedance m Z0) (oa : ok_H_A m Z0)
+    (od : okd_A_forward_transimpedance (H_to_A m Z0) Z0) : H_forward_transimpedance m Z0 = A_forward_transimpedance (H_to_A m Z0) Z0 :=
+  attr_agree H_forward_transimpedance_sound A_forward_transimpedance_sound m _ _ Z0 o od (fun p => H_to_A_sound m Z0 p oa) (fun _ => Iff.rfl) (by pin_of_okd)
+
+theorem H_reverse_transimpedance_agree (m : M2 K) (Z0 : K) (o : okd_H_reverse_transimpedance m Z0) (oa : ok_H_A m Z0)
+    (od : okd_A_reverse_transimpedance (H_to_A m Z0) Z0) : H_reverse_transimpedance m Z0 = A_reverse_transimpedance (H_to_A m Z0) Z0 :=
+  attr_agree H_reverse_transimpedance_sound A_reverse_transimpedance_sound m _ _ Z0 o od (fun p => H_to_A_sound m Z0 p oa) (fun _ => Iff.rfl) (by pin_of_okd)
+
+theorem H_voltage_gain_agree (m : M2 K) (Z0 : K) (o : okd_H_voltage_gain m Z0) (oa : ok_H_A m Z0)
+    (od : okd_A_voltage_gain (H_to_A m Z0) Z0) : H_voltage_gain m Z0 = A_voltage_gain (H_to_A m Z0) Z0 :=
+  attr_agree H_voltage_gain_sound A_voltage_gain_sound m _ _ Z0 o od (fun p => H_to_A_sound m Z0 p oa) (fun _ => Iff.rfl) (by pin_of_okd)
+
+theorem H_forward_voltage_gain_agree (m : M2 K) (Z0 : K) (o : okd_H_forward_voltage_gain m Z0) (oa : ok_H_A m Z0)
+    (od : okd_A_forward_voltage_gain (H_to_A m Z0) Z0) : H_forward_voltage_gain m Z0 = A_forward_voltage_gain (H_to_A m Z0) Z0 :=
+  attr_agree H_forward_voltage_gain_sound A_forward_voltage_gain_sound m _ _ Z0 o od (fun p => H_to_A_sound m Z0 p oa) (fun _ => Iff.rfl) (by pin_of_okd)
+
+theorem H_reverse_voltage_gain_agree (m : M2 K) (Z0 : K) (o : okd_H_reverse_voltage_gain m Z0) (oa : ok_H_A m Z0)
+    (od : okd_A_reverse_voltage_gain (H_to_A m Z0) Z0) : H_reverse_voltage_gain m Z0 = A_reverse_voltage_gain (H_to_A m Z0) Z0 :=
+  attr_agree H_reverse_voltage_gain_sound A_reverse_voltage_gain_sound m _ _ Z0 o od (fun p => H_to_A_sound m Z0 p oa) (fun _ => Iff.rfl) (by pin_of_okd)
+
+theorem H_current_gain_agree (m : M2 K) (Z0 : K) (o : okd_H_current_gain m Z0) (oa : ok_H_A m Z0)
+    (od : okd_A_current_gain (H_to_A m Z0) Z0) : H_current_gain m Z0 = A_current_gain (H_to_A m Z0) Z0 :=
+  attr_agree H_current_gain_sound A_current_gain_sound m _ _ Z0 o od (fun p => H_to_A_sound m Z0 p oa) (fun _ => Iff.rfl) (by pin_of_okd)
+
+theorem H_forward_current_gain_agree (m : M2 K) (Z0 : K) (o : okd_H_forward_current_gain m Z0) (oa : ok_H_A m Z0)
+    (od : okd_A_forward_current_gain (H_to_A m Z0) Z0) : H_forward_current_gain m Z0 = A_forward_current_gain (H_to_A m Z0) Z0 :=
+  attr_agree H_forward_current_gain_sound A_forward_current_gain_sound m _ _ Z0 o od (fun p => H_to_A_sound m Z0 p oa) (fun _ => Iff.rfl) (by pin_of_okd)
+
+theorem H_reverse_current_gain_agree (m : M2 K) (Z0 : K) (o : okd_H_reverse_current_gain m Z0) (oa : ok_H_A m Z0)
+    (od : okd_A_reverse_current_gain (H_to_A m Z0) Z0) : H_reverse_current_gain m Z0 = A_reverse_current_gain (H_to_A m Z0) Z0 :=
+  attr_agree H_reverse_current_gain_sound A_reverse_current_gain_sound m _ _ Z0 o od (fun p => H_to_A_sound m Z0 p oa) (fun _ => Iff.rfl) (by pin_of_okd)
+
+theorem H_transadmittance_agree (m : M2 K) (Z0 : K) (o : okd_H_transadmittance m Z0) (oa : ok_H_A m Z0)
+    (od : okd_A_transadmittance (H_to_A m Z0) Z0) : H_transadmittance m Z0 = A_transadmittance (H_to_A m Z0) Z0 :=
+  attr_agree H_transadmittance_sound A_transadmittance_sound m _ _ Z0 o od (fun p => H_to_A_sound m Z0 p oa) (fun _ => Iff.rfl) (by pin_of_okd)
+
+theorem H_transimpedance_agree (m : M2 K) (Z0 : K) (o : okd_H_transimpedance m Z0) (oa : ok_H_A m Z0)
+    (od : okd_A_transimpedance (H_to_A m Z0) Z0) : H_transimpedance m Z0 = A_transimpedance (H_to_A m Z0) Z0 :=
+  attr_agree H_transimpedance_sound A_transimpedance_sound m _ _ Z0 o od (fun p => H_to_A_sound m Z0 p oa) (fun _ => Iff.rfl) (by pin_of_okd)
+
+theorem S_Z1oc_agree (m : M2 K) (Z0 : K) (o : okd_S_Z1oc m Z0) (oa : ok_S_A m Z0)
+    (od : okd_A_Z1oc (S_to_A m Z0) Z0) : S_Z1oc m Z0 = A_Z1oc (S_to_A m Z0) Z0 :=
+  attr_agree S_Z1oc_sound A_Z1oc_sound m _ _ Z0 o od (fun p => S_to_A_sound m Z0 p oa) (fun _ => Iff.rfl) (by pin_of_okd)
+
+theorem S_Z1sc_agree (m : M2 K) (Z0 : K) (o : okd_S_Z1sc m Z0) (oa : ok_S_A m Z0)
+    (od : okd_A_Z1sc (S_to_A m Z0) Z0) : S_Z1sc m Z0 = A_Z1sc (S_to_A m Z0) Z0 :=
+  attr_agree S_Z1sc_sound A_Z1sc_sound m _ _ Z0 o od (fun p => S_to_A_sound m Z0 p oa) (fun _ => Iff.rfl) (by pin_of_okd)
+
+theorem S_Z2oc_agree (m : M2 K) (Z0 : K) (o : okd_S_Z2oc m Z0) (oa : ok_S_A m Z0)
+    (od : okd_A_Z2oc (S_to_A m Z0) Z0) : S_Z2oc m Z0 = A_Z2oc (S_to_A m Z0) Z0 :=
+  attr_agree S_Z2oc_sound A_Z2oc_sound m _ _ Z0 o od (fun p => S_to_A_sound m Z0 p oa) (fun _ => Iff.rfl) (by pin_of_okd)
+
+theorem S_Z2sc_agree (m : M2 K) (Z0 : K) (o : okd_S_Z2sc m Z0) (oa : ok_S_A m Z0)
+    (od : okd_A_Z2sc (S_to_A m Z0) Z0) : S_Z2sc m Z0 = A_Z2sc (S_to_A m Z0) Z0 :=
+  attr_agree S_Z2sc_sound A_Z2sc_sound m _ _ Z0 o od (fun p => S_to_A_sound m Z0 p oa) (fun _ => Iff.rfl) (by pin_of_okd)
+
+theorem S_Vgain12_agree (m : M2 K) (Z0 : K) (o : okd_S_Vgain12 m Z0) (oa : ok_S_A m Z0)
+    (od : okd_A_Vgain12 (S_to_A m Z0) Z0) : S_Vgain12 m Z0 = A_Vgain12 (S_to_A m Z0) Z0 :=
+  attr_agree S_Vgain12_sound A_Vgain12_sound m _ _ Z0 o od (fun p => S_to_A_sound m Z0 p oa) (fun _ => Iff.rfl) (by pin_of_okd)
+
+theorem S_Vgain21_agree (m : M2 K) (Z0 : K) (o : okd_S_Vgain21 m Z0) (oa : ok_S_A m Z0)
+    (od : okd_A_Vgain21 (S_to_A m Z0) Z0) : S_Vgain21 m Z0 = A_Vgain21 (S_to_A m Z0) Z0 :=
+  attr_agree S_Vgain21_sound A_Vgain21_sound m _ _ Z0 o od (fun p => S_to_A_sound m Z0 p oa) (fun _ => Iff.rfl) (by pin_of_okd)
+
+theorem S_Igain12_agree (m : M2 K) (Z0 : K) (o : okd_S_Igain12 m Z0) (oa : ok_S_A m Z0)
+    (od : okd_A_Igain12 (S_to_A m Z0) Z0) : S_Igain12 m Z0 = A_Igain12 (S_to_A m Z0) Z0 :=
+  attr_agree S_Igain12_sound A_Igain12_sound m _ _ Z0 o od (fun p => S_to_A_sound m Z0 p oa) (fun _ => Iff.rfl) (by pin_of_okd)
+
+theorem S_Igain21_agree (m : M2 K) (Z0 : K) (o : okd_S_Igain21 m Z0) (oa : ok_S_A m Z0)
+    (od : okd_A_Igain21 (S_to_A m Z0) Z0) : S_Igain21 m Z0 = A_Igain21 (S_to_A m Z0) Z0 :=
+  attr_agree S_Igain21_sound A_Igain21_sound m _ _ Z0 o od (fun p => S_to_A_sound m Z0 p oa) (fun _ => Iff.rfl) (by pin_of_okd)
+
+theorem S_forward_transadmittance_agree (m : M2 K) (Z0 : K) (o : okd_S_forward_transadmittance m Z0) (oa : ok_S_A m Z0)
+    (od : okd_A_forward_transadmittance (S_to_A m Z0) Z0) : S_forward_transadmittance m Z0 = A_forward_transadmittance (S_to_A m Z0) Z0 :=
+  attr_agree S_forward_transadmittance_sound A_forward_transadmittance_sound m _ _ Z0 o od (fun p => S_to_A_sound m Z0 p oa) (fun _ => Iff.rfl) (by pin_of_okd)
+
+theorem S_reverse_transadmittance_agree (m : M2 K) (Z0 : K) (o : okd_S_reverse_transadmittance m Z0) (oa : ok_S_A m Z0)
+    (od : okd_A_reverse_transadmittance (S_to_A m Z0) Z0) : S_reverse_transadmittance m Z0 = A_reverse_transadmittance (S_to_A m Z0) Z0 :=
+  attr_agree S_reverse_transadmittance_sound A_reverse_transadmittance_sound m _ _ Z0 o od (fun p => S_to_A_sound m Z0 p oa) (fun _ => Iff.rfl) (by pin_of_okd)
+
+theorem S_forward_transimpedance_agree (m : M2 K) (Z0 : K) (o : okd_S_forward_transimpedance m Z0) (oa : ok_S_A m Z0)
+    (od : okd_A_forward_transimpedance (S_to_A m Z0) Z0) : S_forward_transimpedance m Z0 = A_forward_transimpedance (S_to_A m Z0) Z0 :=
+  attr_agree S_forward_transimpedance_sound A_forward_transimpedance_sound m _ _ Z0 o od (fun p => S_to_A_sound m Z0 p oa) (fun _ => Iff.rfl) (by pin_of_okd)
+
+theorem S_reverse_transimpedance_agree (m : M2 K) (Z0 : K) (o : okd_S_reverse_transimpedance m Z0) (oa : ok_S_A m Z0)
+    (od : okd_A_reverse_transimpedance (S_to_A m Z0) Z0) : S_reverse_transimpedance m Z0 = A_reverse_transimpedance (S_to_A m Z0) Z0 :=
+  attr_agree S_reverse_transimpedance_sound A_reverse_transimpedance_sound m _ _ Z0 o od (fun p => S_to_A_sound m Z0 p oa) (fun _ => Iff.rfl) (by pin_of_okd)
+
+theorem S_voltage_gain_agree (m : M2 K) (Z0 : K) (o : okd_S_voltage_gain m Z0) (oa : ok_S_A m Z0)
+    (od : okd_A_voltage_gain (S_to_A m Z0) Z0) : S_voltage_gain m Z0 = A_voltage_gain (S_to_A m Z0) Z0 :=
+  attr_agree S_voltage_gain_sound A_voltage_gain_sound m _ _ Z0 o od (fun p => S_to_A_sound m Z0 p oa) (fun _ => Iff.rfl) (by pin_of_okd)
+
+theorem S_forward_voltage_gain_agree (m : M2 K) (Z0 : K) (o : okd_S_forward_voltage_gain m Z0) (oa : ok_S_A m Z0)
+    (od : okd_A_forward_voltage_gain (S_to_A m Z0) Z0) : S_forward_voltage_gain m Z0 = A_forward_voltage_gain (S_to_A m Z0) Z0 :=
+  attr_agree S_forward_voltage_gain_sound A_forward_voltage_gain_sound m _ _ Z0 o od (fun p => S_to_A_sound m Z0 p oa) (fun _ => Iff.rfl) (by pin_of_okd)
+
+theorem S_reverse_voltage_gain_agree (m : M2 K) (Z0 : K) (o : okd_S_reverse_voltage_gain m Z0) (oa : ok_S_A m Z0)
+    (od : okd_A_reverse_voltage_gain (S_to_A m Z0) Z0) : S_reverse_voltage_gain m Z0 = A_reverse_voltage_gain (S_to_A m Z0) Z0 :=
+  attr_agree S_reverse_voltage_gain_sound A_reverse_voltage_gain_sound m _ _ Z0 o od (fun p => S_to_A_sound m Z0 p oa) (fun _ => Iff.rfl) (by pin_of_okd)
+
+theorem S_current_gain_agree (m : M2 K) (Z0 : K) (o : okd_S_current_gain m Z0) (oa : ok_S_A m Z0)
+    (od : okd_A_current_gain (S_to_A m Z0) Z0) : S_current_gain m Z0 = A_current_gain (S_to_A m Z0) Z0 :=
+  attr_agree S_current_gain_sound A_current_gain_sound m _ _ Z0 o od (fun p => S_to_A_sound m Z0 p oa) (fun _ => Iff.rfl) (by pin_of_okd)
+
+theorem S_forward_current_gain_agree (m : M2 K) (Z0 : K) (o : okd_S_forward_current_gain m Z0) (oa : ok_S_A m Z0)
+    (od : okd_A_forward_current_gain (S_to_A m Z0) Z0) : S_forward_current_gain m Z0 = A_forward_current_gain (S_to_A m Z0) Z0 :=
+  attr_agree S_forward_current_gain_sound A_forward_current_gain_sound m _ _ Z0 o od (fun p => S_to_A_sound m Z0 p oa) (fun _ => Iff.rfl) (by pin_of_okd)
+
+theorem S_reverse_current_gain_agree (m : M2 K) (Z0 : K) (o : okd_S_reverse_current_gain m Z0) (oa : ok_S_A m Z0)
+    (od : okd_A_reverse_current_gain (S_to_A m Z0) Z0) : S_reverse_current_gain m Z0 = A_reverse_current_gain (S_to_A m Z0) Z0 :=
+  attr_agree S_reverse_current_gain_sound A_reverse_current_gain_sound m _ _ Z0 o od (fun p => S_to_A_sound m Z0 p oa) (fun _ => Iff.rfl) (by pin_of_okd)
+
+theorem S_transadmittance_agree (m : M2 K) (Z0 : K) (o : okd_S_transadmittance m Z0) (oa : ok_S_A m Z0)
+    (od : okd_A_transadmittance (S_to_A m Z0) Z0) : S_transadmittance m Z0 = A_transadmittance (S_to_A m Z0) Z0 :=
+  attr_agree S_transadmittance_sound A_transadmittance_sound m _ _ Z0 o od (fun p => S_to_A_sound m Z0 p oa) (fun _ => Iff.rfl) (by pin_of_okd)
+
+theorem S_transimpedance_agree (m : M2 K) (Z0 : K) (o : okd_S_transimpedance m Z0) (oa : ok_S_A m Z0)
+    (od : okd_A_transimpedance (S_to_A m Z0) Z0) : S_transimpedance m Z0 = A_transimpedance (S_to_A m Z0) Z0 :=
+  attr_agree S_transimpedance_sound A_transimpedance_sound m _ _ Z0 o od (fun p => S_to_A_sound m Z0 p oa) (fun _ => Iff.rfl) (by pin_of_okd)
+
+theorem T_Z1oc_agree (m : M2 K) (Z0 : K) (o : okd_T_Z1oc m Z0) (oa : ok_T_A m Z0)
+    (od : okd_A_Z1oc (T_to_A m Z0) Z0) : T_Z1oc m Z0 = A_Z1oc (T_to_A m Z0) Z0 :=
+  attr_agree T_Z1oc_sound A_Z1oc_sound m _ _ Z0 o od (fun p => T_to_A_sound m Z0 p oa) (fun _ => Iff.rfl) (by pin_of_okd)
+
+theorem T_Z1sc_agree (m : M2 K) (Z0 : K) (o : okd_T_Z1sc m Z0) (oa : ok_T_A m Z0)
+    (od : okd_A_Z1sc (T_to_A m Z0) Z0) : T_Z1sc m Z0 = A_Z1sc (T_to_A m Z0) Z0 :=
+  attr_agree T_Z1sc_sound A_Z1sc_sound m _ _ Z0 o od (fun p => T_to_A_sound m Z0 p oa) (fun _ => Iff.rfl) (by pin_of_okd)
+
+theorem T_Z2oc_agree (m : M2 K) (Z0 : K) (o : okd_T_Z2oc m Z0) (oa : ok_T_A m Z0)
+    (od : okd_A_Z2oc (T_to_A m Z0) Z0) : T_Z2oc m Z0 = A_Z2oc (T_to_A m Z0) Z0 :=
+  attr_agree T_Z2oc_sound A_Z2oc_sound m _ _ Z0 o od (fun p => T_to_A_sound m Z0 p oa) (fun _ => Iff.rfl) (by pin_of_okd)
+
+theorem T_Z2sc_agree (m : M2 K) (Z0 : K) (o : okd_T_Z2sc m Z0) (oa : ok_T_A m Z0)
+    (od : okd_A_Z2sc (T_to_A m Z0) Z0) : T_Z2sc m Z0 = A_Z2sc (T_to_A m Z0) Z0 :=
+  attr_agree T_Z2sc_sound A_Z2sc_sound m _ _ Z0 o od (fun p => T_to_A_sound m Z0 p oa) (fun _ => Iff.rfl) (by pin_of_okd)
+
+theorem T_Vgain12_agree (m : M2 K) (Z0 : K) (o : okd_T_Vgain12 m Z0) (oa : ok_T_A m Z0)
+    (od : okd_A_Vgain12 (T_to_A m Z0) Z0) : T_Vgain12 m Z0 = A_Vgain12 (T_to_A m Z0) Z0 :=
+  attr_agree T_Vgain12_sound A_Vgain12_sound m _ _ Z0 o od (fun p => T_to_A_sound m Z0 p oa) (fun _ => Iff.rfl) (by pin_of_okd)
+
+theorem T_Vgain21_agree (m : M2 K) (Z0 : K) (o : okd_T_Vgain21 m Z0) (oa : ok_T_A m Z0)
+    (od : okd_A_Vgain21 (T_to_A m Z0) Z0) : T_Vgain21 m Z0 = A_Vgain21 (T_to_A m Z0) Z0 :=
+  attr_agree T_Vgain21_sound A_Vgain21_sound m _ _ Z0 o od (fun p => T_to_A_sound m Z0 p oa) (fun _ => Iff.rfl) (by pin_of_okd)
+
+theorem T_Igain12_agree (m : M2 K) (Z0 : K) (o : okd_T_Igain12 m Z0) (oa : ok_T_A m Z0)
+    (od : okd_A_Igain12 (T_to_A m Z0) Z0) : T_Igain12 m Z0 = A_Igain12 (T_to_A m Z0) Z0 :=
+  attr_agree T_Igain12_sound A_Igain12_sound m _ _ Z0 o od (fun p => T_to_A_sound m Z0 p oa) (fun _ => Iff.rfl) (by pin_of_okd)
+
+theorem T_Igain21_agree (m : M2 K) (Z0 : K) (o : okd_T_Igain21 m Z0) (oa : ok_T_A m Z0)
+    (od : okd_A_Igain21 (T_to_A m Z0) Z0) : T_Igain21 m Z0 = A_Igain21 (T_to_A m Z0) Z0 :=
+  attr_agree T_Igain21_sound A_Igain21_sound m _ _ Z0 o od (fun p => T_to_A_sound m Z0 p oa) (fun _ => Iff.rfl) (by pin_of_okd)
+
+theorem T_forward_transadmittance_agree (m : M2 K) (Z0 : K) (o : okd_T_forward_transadmittance m Z0) (oa : ok_T_A m Z0)
+    (od : okd_A_forward_transadmittance (T_to_A m Z0) Z0) : T_forward_transadmittance m Z0 = A_forward_transadmittance (T_to_A m Z0) Z0 :=
+  attr_agree T_forward_transadmittance_sound A_forward_transadmittance_sound m _ _ Z0 o od (fun p => T_to_A_sound m Z0 p oa) (fun _ => Iff.rfl) (by pin_of_okd)
+
+theorem T_reverse_transadmittance_agree (m : M2 K) (Z0 : K) (o : okd_T_reverse_transadmittance m Z0) (oa : ok_T_A m Z0)
+    (od : okd_A_reverse_transadmittance (T_to_A m Z0) Z0) : T_reverse_transadmittance m Z0 = A_reverse_transadmittance (T_to_A m Z0) Z0 :=
+  attr_agree T_reverse_transadmittance_sound A_reverse_transadmittance_sound m _ _ Z0 o od (fun p => T_to_A_sound m Z0 p oa) (fun _ => Iff.rfl) (by pin_of_okd)
+
+theorem T_forward_transimpedance_agree (m : M2 K) (Z0 : K) (o : okd_T_forward_transimpedance m Z0) (oa : ok_T_A m Z0)
+    (od : okd_A_forward_transimpedance (T_to_A m Z0) Z0) : T_forward_transimpedance m Z0 = A_forward_transimpedance (T_to_A m Z0) Z0 :=
+  attr_agree T_forward_transimpedance_sound A_forward_transimpedance_sound m _ _ Z0 o od (fun p => T_to_A_sound m Z0 p oa) (fun _ => Iff.rfl) (by pin_of_okd)
+
+theorem T_reverse_transimpedance_agree (m : M2 K) (Z0 : K) (o : okd_T_reverse_transimpedance m Z0) (oa : ok_T_A m Z0)
+    (od : okd_A_reverse_transimpedance (T_to_A m Z0) Z0) : T_reverse_transimpedance m Z0 = A_reverse_transimpedance (T_to_A m Z0) Z0 :=
+  attr_agree T_reverse_transimpedance_sound A_reverse_transimpedance_sound m _ _ Z0 o od (fun p => T_to_A_sound m Z0 p oa) (fun _ => Iff.rfl) (by pin_of_okd)
+
+theorem T_voltage_gain_agree (m : M2 K) (Z0 : K) (o : okd_T_voltage_gain m Z0) (oa : ok_T_A m Z0)
+    (od : okd_A_voltage_gain (T_to_A m Z0) Z0) : T_voltage_gain m Z0 = A_voltage_gain (T_to_A m Z0) Z0 :=
+  attr_agree T_voltage_gain_sound A_voltage_gain_sound m _ _ Z0 o od (fun p => T_to_A_sound m Z0 p oa) (fun _ => Iff.rfl) (by pin_of_okd)
+
+theorem T_forward_voltage_gain_agree (m : M2 K) (Z0 : K) (o : okd_T_forward_voltage_gain m Z0) (oa : ok_T_A m Z0)
+    (od : okd_A_forward_voltage_gain (T_to_A m Z0) Z0) : T_forward_voltage_gain m Z0 = A_forward_voltage_gain (T_to_A m Z0) Z0 :=
+  attr_agree T_forward_voltage_gain_sound A_forward_voltage_gain_sound m _ _ Z0 o od (fun p => T_to_A_sound m Z0 p oa) (fun _ => Iff.rfl) (by pin_of_okd)
+
+theorem T_reverse_voltage_gain_agree (m : M2 K) (Z0 : K) (o : okd_T_reverse_voltage_gain m Z0) (oa : ok_T_A m Z0)
+    (od : okd_A_reverse_voltage_gain (T_to_A m Z0) Z0) : T_reverse_voltage_gain m Z0 = A_reverse_voltage_gain (T_to_A m Z0) Z0 :=
+  attr_agree T_reverse_voltage_gain_sound A_reverse_voltage_gain_sound m _ _ Z0 o od (fun p => T_to_A_sound m Z0 p oa) (fun _ => Iff.rfl) (by pin_of_okd)
+
+theorem T_current_gain_agree (m : M2 K) (Z0 : K) (o : okd_T_current_gain m Z0) (oa : ok_T_A m Z0)
+    (od : okd_A_current_gain (T_to_A m Z0) Z0) : T_current_gain m Z0 = A_current_gain (T_to_A m Z0) Z0 :=
+  attr_agree T_current_gain_sound A_current_gain_sound m _ _ Z0 o od (fun p => T_to_A_sound m Z0 p oa) (fun _ => Iff.rfl) (by pin_of_okd)
+
+theorem T_forward_current_gain_agree (m : M2 K) (Z0 : K) (o : okd_T_forward_current_gain m Z0) (oa : ok_T_A m Z0)
+    (od : okd_A_forward_current_gain (T_to_A m Z0) Z0) : T_forward_current_gain m Z0 = A_forward_current_gain (T_to_A m Z0) Z0 :=
+  attr_agree T_forward_current_gain_sound A_forward_current_gain_sound m _ _ Z0 o od (fun p => T_to_A_sound m Z0 p oa) (fun _ => Iff.rfl) (by pin_of_okd)
+
+theorem T_reverse_current_gain_agree (m : M2 K) (Z0 : K) (o : okd_T_reverse_current_gain m Z0) (oa : ok_T_A m Z0)
+    (od : okd_A_reverse_current_gain (T_to_A m Z0) Z0) : T_reverse_current_gain m Z0 = A_reverse_current_gain (T_to_A m Z0) Z0 :=
+  attr_agree T_reverse_current_gain_sound A_reverse_current_gain_sound m _ _ Z0 o od (fun p => T_to_A_sound m Z0 p oa) (fun _ => Iff.rfl) (by pin_of_okd)
+
+theorem T_transadmittance_agree (m : M2 K) (Z0 : K) (o : okd_T_transadmittance m Z0) (oa : ok_T_A m Z0)
+    (od : okd_A_transadmittance (T_to_A m Z0) Z0) : T_transadmittance m Z0 = A_transadmittance (T_to_A m Z0) Z0 :=
+  attr_agree T_transadmittance_sound A_transadmittance_sound m _ _ Z0 o od (fun p => T_to_A_sound m Z0 p oa) (fun _ => Iff.rfl) (by pin_of_okd)
+
+theorem T_transimpedance_agree (m : M2 K) (Z0 : K) (o : okd_T_transimpedance m Z0) (oa : ok_T_A m Z0)
+    (od : okd_A_transimpedance (T_to_A m Z0) Z0) : T_transimpedance m Z0 = A_transimpedance (T_to_A m Z0) Z0 :=
+  attr_agree T_transimpedance_sound A_transimpedance_sound m _ _ Z0 o od (fun p => T_to_A_sound m Z0 p oa) (fun _ => Iff.rfl) (by pin_of_okd)
+
+theorem Y_Z1oc_agree (m : M2 K) (Z0 : K) (o : okd_Y_Z1oc m Z0) (oa : ok_Y_A m Z0)
+    (od : okd_A_Z1oc (Y_to_A m Z0) Z0) : Y_Z1oc m Z0 = A_Z1oc (Y_to_A m Z0) Z0 :=
+  attr_agree Y_Z1oc_sound A_Z1oc_sound m _ _ Z0 o od (fun p => Y_to_A_sound m Z0 p oa) (fun _ => Iff.rfl) (by pin_of_okd)
+
+theorem Y_Z1sc_agree (m : M2 K) (Z0 : K) (o : okd_Y_Z1sc m Z0) (oa : ok_Y_A m Z0)
+    (od : okd_A_Z1sc (Y_to_A m Z0) Z0) : Y_Z1sc m Z0 = A_Z1sc (Y_to_A m Z0) Z0 :=
+  attr_agree Y_Z1sc_sound A_Z1sc_sound m _ _ Z0 o od (fun p => Y_to_A_sound m Z0 p oa) (fun _ => Iff.rfl) (by pin_of_okd)
+
+theorem Y_Z2oc_agree (m : M2 K) (Z0 : K) (o : okd_Y_Z2oc m Z0) (oa : ok_Y_A m Z0)
+    (od : okd_A_Z2oc (Y_to_A m Z0) Z0) : Y_Z2oc m Z0 = A_Z2oc (Y_to_A m Z0) Z0 :=
+  attr_agree Y_Z2oc_sound A_Z2oc_sound m _ _ Z0 o od (fun p => Y_to_A_sound m Z0 p oa) (fun _ => Iff.rfl) (by pin_of_okd)
+
+theorem Y_Z2sc_agree (m : M2 K) (Z0 : K) (o : okd_Y_Z2sc m Z0) (oa : ok_Y_A m Z0)
+    (od : okd_A_Z2sc (Y_to_A m Z0) Z0) : Y_Z2sc m Z0 = A_Z2sc (Y_to_A m Z0) Z0 :=
+  attr_agree Y_Z2sc_sound A_Z2sc_sound m _ _ Z0 o od (fun p => Y_to_A_sound m Z0 p oa) (fun _ => Iff.rfl) (by pin_of_okd)
+
+theorem Y_Vgain12_agree (m : M2 K) (Z0 : K) (o : okd_Y_Vgain12 m Z0) (oa : ok_Y_A m Z0)
+    (od : okd_A_Vgain12 (Y_to_A m Z0) Z0) : Y_Vgain12 m Z0 = A_Vgain12 (Y_to_A m Z0) Z0 :=
+  attr_agree Y_Vgain12_sound A_Vgain12_sound m _ _ Z0 o od (fun p => Y_to_A_sound m Z0 p oa) (fun _ => Iff.rfl) (by pin_of_okd)
+
+theorem Y_Vgain21_agree (m : M2 K) (Z0 : K) (o : okd_Y_Vgain21 m Z0) (oa : ok_Y_A m Z0)
+    (od : okd_A_Vgain21 (Y_to_A m Z0) Z0) : Y_Vgain21 m Z0 = A_Vgain21 (Y_to_A m Z0) Z0 :=
+  attr_agree Y_Vgain21_sound A_Vgain21_sound m _ _ Z0 o od (fun p => Y_to_A_sound m Z0 p oa) (fun _ => Iff.rfl) (by pin_of_okd)
+
+theorem Y_Igain12_agree (m : M2 K) (Z0 : K) (o : okd_Y_Igain12 m Z0) (oa : ok_Y_A m Z0)
+    (od : okd_A_Igain12 (Y_to_A m Z0) Z0) : Y_Igain12 m Z0 = A_Igain12 (Y_to_A m Z0) Z0 :=
+  attr_agree Y_Igain12_sound A_Igain12_sound m _ _ Z0 o od (fun p => Y_to_A_sound m Z0 p oa) (fun _ => Iff.rfl) (by pin_of_okd)
+
+theorem Y_Igain21_agree (m : M2 K) (Z0 : K) (o : okd_Y_Igain21 m Z0) (oa : ok_Y_A m Z0)
+    (od : okd_A_Igain21 (Y_to_A m Z0) Z0) : Y_Igain21 m Z0 = A_Igain21 (Y_to_A m Z0) Z0 :=
+  attr_agree Y_Igain21_sound A_Igain21_sound m _ _ Z0 o od (fun p => Y_to_A_sound m Z0 p oa) (fun _ => Iff.rfl) (by pin_of_okd)
+
+theorem Y_forward_transadmittance_agree (m : M2 K) (Z0 : K) (o : okd_Y_forward_transadmittance m Z0) (oa : ok_Y_A m Z0)
+    (od : okd_A_forward_transadmittance (Y_to_A m Z0) Z0) : Y_forward_transadmittance m Z0 = A_forward_transadmittance (Y_to_A m Z0) Z0 :=
+  attr_agree Y_forward_transadmittance_sound A_forward_transadmittance_sound m _ _ Z0 o od (fun p => Y_to_A_sound m Z0 p oa) (fun _ => Iff.rfl) (by pin_of_okd)
+
+theorem Y_reverse_transadmittance_agree (m : M2 K) (Z0 : K) (o : okd_Y_reverse_transadmittance m Z0) (oa : ok_Y_A m Z0)
+    (od : okd_A_reverse_transadmittance (Y_to_A m Z0) Z0) : Y_reverse_transadmittance m Z0 = A_reverse_transadmittance (Y_to_A m Z0) Z0 :=
+  attr_agree Y_reverse_transadmittance_sound A_reverse_transadmittance_sound m _ _ Z0 o od (fun p => Y_to_A_sound m Z0 p oa) (fun _ => Iff.rfl) (by pin_of_okd)
+
+theorem Y_forward_transimpedance_agree (m : M2 K) (Z0 : K) (o : okd_Y_forward_transimpedance m Z0) (oa : ok_Y_A m Z0)
+    (od : okd_A_forward_transimpedance (Y_to_A m Z0) Z0) : Y_forward_transimpedance m Z0 = A_forward_transimpedance (Y_to_A m Z0) Z0 :=
+  attr_agree Y_forward_transimpedance_sound A_forward_transimpedance_sound m _ _ Z0 o od (fun p => Y_to_A_sound m Z0 p oa) (fun _ => Iff.rfl) (by pin_of_okd)
+
+theorem Y_reverse_transimpedance_agree (m : M2 K) (Z0 : K) (o : okd_Y_reverse_transimpedance m Z0) (oa : ok_Y_A m Z0)
+    (od : okd_A_reverse_transimpedance (Y_to_A m Z0) Z0) : Y_reverse_transimpedance m Z0 = A_reverse_transimpedance (Y_to_A m Z0) Z0 :=
+  attr_agree Y_reverse_transimpedance_sound A_reverse_transimpedance_sound m _ _ Z0 o od (fun p => Y_to_A_sound m Z0 p oa) (fun _ => Iff.rfl) (by pin_of_okd)
+
+theorem Y_voltage_gain_agree (m : M2 K) (Z0 : K) (o : okd_Y_voltage_gain m Z0) (oa : ok_Y_A m Z0)
+    (od : okd_A_voltage_gain (Y_to_A m Z0) Z0) : Y_voltage_gain m Z0 = A_voltage_gain (Y_to_A m Z0) Z0 :=
+  attr_agree Y_voltage_gain_sound A_voltage_gain_sound m _ _ Z0 o od (fun p => Y_to_A_sound m Z0 p oa) (fun _ => Iff.rfl) (by pin_of_okd)
+
+theorem Y_forward_voltage_gain_agree (m : M2 K) (Z0 : K) (o : okd_Y_forward_voltage_gain m Z0) (oa : ok_Y_A m Z0)
+    (od : okd_A_forward_voltage_gain (Y_to_A m Z0) Z0) : Y_forward_voltage_gain m Z0 = A_forward_voltage_gain (Y_to_A m Z0) Z0 :=
+  attr_agree Y_forward_voltage_gain_sound A_forward_voltage_gain_sound m _ _ Z0 o od (fun p => Y_to_A_sound m Z0 p oa) (fun _ => Iff.rfl) (by pin_of_okd)
+
+theorem Y_reverse_voltage_gain_agree (m : M2 K) (Z0 : K) (o : okd_Y_reverse_voltage_gain m Z0) (oa : ok_Y_A m Z0)
+    (od : okd_A_reverse_voltage_gain (Y_to_A m Z0) Z0) : Y_reverse_voltage_gain m Z0 = A_reverse_voltage_gain (Y_to_A m Z0) Z0 :=
+  attr_agree Y_reverse_voltage_gain_sound A_reverse_voltage_gain_sound m _ _ Z0 o od (fun p => Y_to_A_sound m Z0 p oa) (fun _ => Iff.rfl) (by pin_of_okd)
+
+theorem Y_current_gain_agree (m : M2 K) (Z0 : K) (o : okd_Y_current_gain m Z0) (oa : ok_Y_A m Z0)
+    (od : okd_A_current_gain (Y_to_A m Z0) Z0) : Y_current_gain m Z0 = A_current_gain (Y_to_A m Z0) Z0 :=
+  attr_agree Y_current_gain_sound A_current_gain_sound m _ _ Z0 o od (fun p => Y_to_A_sound m Z0 p oa) (fun _ => Iff.rfl) (by pin_of_okd)
+
+theorem Y_forward_current_gain_agree (m : M2 K) (Z0 : K) (o : okd_Y_forward_current_gain m Z0) (oa : ok_Y_A m Z0)
+    (od : okd_A_forward_current_gain (Y_to_A m Z0) Z0) : Y_forward_current_gain m Z0 = A_forward_current_gain (Y_to_A m Z0) Z0 :=
+  attr_agree Y_forward_current_gain_sound A_forward_current_gain_sound m _ _ Z0 o od (fun p => Y_to_A_sound m Z0 p oa) (fun _ => Iff.rfl) (by pin_of_okd)
+
+theorem Y_reverse_current_gain_agree (m : M2 K) (Z0 : K) (o : okd_Y_reverse_current_gain m Z0) (oa : ok_Y_A m Z0)
+    (od : okd_A_reverse_current_gain (Y_to_A m Z0) Z0) : Y_reverse_current_gain m Z0 = A_reverse_current_gain (Y_to_A m Z0) Z0 :=
+  attr_agree Y_reverse_current_gain_sound A_reverse_current_gain_sound m _ _ Z0 o od (fun p => Y_to_A_sound m Z0 p oa) (fun _ => Iff.rfl) (by pin_of_okd)
+
+theorem Y_transadmittance_agree (m : M2 K) (Z0 : K) (o : okd_Y_transadmittance m Z0) (oa : ok_Y_A m Z0)
+    (od : okd_A_transadmittance (Y_to_A m Z0) Z0) : Y_transadmittance m Z0 = A_transadmittance (Y_to_A m Z0) Z0 :=
+  attr_agree Y_transadmittance_sound A_transadmittance_sound m _ _ Z0 o od (fun p => Y_to_A_sound m Z0 p oa) (fun _ => Iff.rfl) (by pin_of_okd)
+
+theorem Y_transimpedance_agree (m : M2 K) (Z0 : K) (o : okd_Y_transimpedance m Z0) (oa : ok_Y_A m Z0)
+    (od : okd_A_transimpedance (Y_to_A m Z0) Z0) : Y_transimpedance m Z0 = A_transimpedance (Y_to_A m Z0) Z0 :=
+  attr_agree Y_transimpedance_sound A_transimpedance_sound m _ _ Z0 o od (fun p => Y_to_A_sound m Z0 p oa) (fun _ => Iff.rfl) (by pin_of_okd)
+
+theorem Z_Z1oc_agree (m : M2 K) (Z0 : K) (o : okd_Z_Z1oc m Z0) (oa : ok_Z_A m Z0)
+    (od : okd_A_Z1oc (Z_to_A m Z0) Z0) : Z_Z1oc m Z0 = A_Z1oc (Z_to_A m Z0) Z0 :=
+  attr_agree Z_Z1oc_sound A_Z1oc_sound m _ _ Z0 o od (fun p => Z_to_A_sound m Z0 p oa) (fun _ => Iff.rfl) (by pin_of_okd)
+
+theorem Z_Z1sc_agree (m : M2 K) (Z0 : K) (o : okd_Z_Z1sc m Z0) (oa : ok_Z_A m Z0)
+    (od : okd_A_Z1sc (Z_to_A m Z0) Z0) : Z_Z1sc m Z0 = A_Z1sc (Z_to_A m Z0) Z0 :=
+  attr_agree Z_Z1sc_sound A_Z1sc_sound m _ _ Z0 o od (fun p => Z_to_A_sound m Z0 p oa) (fun _ => Iff.rfl) (by pin_of_okd)
+
+theorem Z_Z2oc_agree (m : M2 K) (Z0 : K) (o : okd_Z_Z2oc m Z0) (oa : ok_Z_A m Z0)
+    (od : okd_A_Z2oc (Z_to_A m Z0) Z0) : Z_Z2oc m Z0 = A_Z2oc (Z_to_A m Z0) Z0 :=
+  attr_agree Z_Z2oc_sound A_Z2oc_sound m _ _ Z0 o od (fun p => Z_to_A_sound m Z0 p oa) (fun _ => Iff.rfl) (by pin_of_okd)
+
+theorem Z_Z2sc_agree (m : M2 K) (Z0 : K) (o : okd_Z_Z2sc m Z0) (oa : ok_Z_A m Z0)
+    (od : okd_A_Z2sc (Z_to_A m Z0) Z0) : Z_Z2sc m Z0 = A_Z2sc (Z_to_A m Z0) Z0 :=
+  attr_agree Z_Z2sc_sound A_Z2sc_sound m _ _ Z0 o od (fun p => Z_to_A_sound m Z0 p oa) (fun _ => Iff.rfl) (by pin_of_okd)
+
+theorem Z_Vgain12_agree (m : M2 K) (Z0 : K) (o : okd_Z_Vgain12 m Z0) (oa : ok_Z_A m Z0)
+    (od : okd_A_Vgain12 (Z_to_A m Z0) Z0) : Z_Vgain12 m Z0 = A_Vgain12 (Z_to_A m Z0) Z0 :=
+  attr_agree Z_Vgain12_sound A_Vgain12_sound m _ _ Z0 o od (fun p => Z_to_A_sound m Z0 p oa) (fun _ => Iff.rfl) (by pin_of_okd)
+
+theorem Z_Vgain21_agree (m : M2 K) (Z0 : K) (o : okd_Z_Vgain21 m Z0) (oa : ok_Z_A m Z0)
+    (od : okd_A_Vgain21 (Z_to_A m Z0) Z0) : Z_Vgain21 m Z0 = A_Vgain21 (Z_to_A m Z0) Z0 :=
+  attr_agree Z_Vgain21_sound A_Vgain21_sound m _ _ Z0 o od (fun p => Z_to_A_sound m Z0 p oa) (fun _ => Iff.rfl) (by pin_of_okd)
+
+theorem Z_Igain12_agree (m : M2 K) (Z0 : K) (o : okd_Z_Igain12 m Z0) (oa : ok_Z_A m Z0)
+    (od : okd_A_Igain12 (Z_to_A m Z0) Z0) : Z_Igain12 m Z0 = A_Igain12 (Z_to_A m Z0) Z0 :=
+  attr_agree Z_Igain12_sound A_Igain12_sound m _ _ Z0 o od (fun p => Z_to_A_sound m Z0 p oa) (fun _ => Iff.rfl) (by pin_of_okd)
+
+theorem Z_Igain21_agree (m : M2 K) (Z0 : K) (o : okd_Z_Igain21 m Z0) (oa : ok_Z_A m Z0)
+    (od : okd_A_Igain21 (Z_to_A m Z0) Z0) : Z_Igain21 m Z0 = A_Igain21 (Z_to_A m Z0) Z0 :=
+  attr_agree Z_Igain21_sound A_Igain21_sound m _ _ Z0 o od (fun p => Z_to_A_sound m Z0 p oa) (fun _ => Iff.rfl) (by pin_of_okd)
+
+theorem Z_forward_transadmittance_agree (m : M2 K) (Z0 : K) (o : okd_Z_forward_transadmittance m Z0) (oa : ok_Z_A m Z0)
+    (od : okd_A_forward_transadmittance (Z_to_A m Z0) Z0) : Z_forward_transadmittance m Z0 = A_forward_transadmittance (Z_to_A m Z0) Z0 :=
+  attr_agree Z_forward_transadmittance_sound A_forward_transadmittance_sound m _ _ Z0 o od (fun p => Z_to_A_sound m Z0 p oa) (fun _ => Iff.rfl) (by pin_of_okd)
+
+theorem Z_reverse_transadmittance_agree (m : M2 K) (Z0 : K) (o : okd_Z_reverse_transadmittance m Z0) (oa : ok_Z_A m Z0)
+    (od : okd_A_reverse_transadmittance (Z_to_A m Z0) Z0) : Z_reverse_transadmittance m Z0 = A_reverse_transadmittance (Z_to_A m Z0) Z0 :=
+  attr_agree Z_reverse_transadmittance_sound A_reverse_transadmittance_sound m _ _ Z0 o od (fun p => Z_to_A_sound m Z0 p oa) (fun _ => Iff.rfl) (by pin_of_okd)
+
+theorem Z_forward_transimpedance_agree (m : M2 K) (Z0 : K) (o : okd_Z_forward_transimpedance m Z0) (oa : ok_Z_A m Z0)
+    (od : okd_A_forward_transimpedance (Z_to_A m Z0) Z0) : Z_forward_transimpedance m Z0 = A_forward_transimpedance (Z_to_A m Z0) Z0 :=
+  attr_agree Z_forward_transimpedance_sound A_forward_transimpedance_sound m _ _ Z0 o od (fun p => Z_to_A_sound m Z0 p oa) (fun _ => Iff.rfl) (by pin_of_okd)
+
+theorem Z_reverse_transimpedance_agree (m : M2 K) (Z0 : K) (o : okd_Z_reverse_transimpedance m Z0) (oa : ok_Z_A m Z0)
+    (od : okd_A_reverse_transimpedance (Z_to_A m Z0) Z0) : Z_reverse_transimpedance m Z0 = A_reverse_transimpedance (Z_to_A m Z0) Z0 :=
+  attr_agree Z_reverse_transimpedance_sound A_reverse_transimpedance_sound m _ _ Z0 o od (fun p => Z_to_A_sound m Z0 p oa) (fun _ => Iff.rfl) (by pin_of_okd)
+
+theorem Z_voltage_gain_agree (m : M2 K) (Z0 : K) (o : okd_Z_voltage_gain m Z0) (oa : ok_Z_A m Z0)
+    (od : okd_A_voltage_gain (Z_to_A m Z0) Z0) : Z_voltage_gain m Z0 = A_voltage_gain (Z_to_A m Z0) Z0 :=
+  attr_agree Z_voltage_gain_sound A_voltage_gain_sound m _ _ Z0 o od (fun p => Z_to_A_sound m Z0 p oa) (fun _ => Iff.rfl) (by pin_of_okd)
+
+theorem Z_forward_voltage_gain_agree (m : M2 K) (Z0 : K) (o : okd_Z_forward_voltage_gain m Z0) (oa : ok_Z_A m Z0)
+    (od : okd_A_forward_voltage_gain (Z_to_A m Z0) Z0) : Z_forward_voltage_gain m Z0 = A_forward_voltage_gain (Z_to_A m Z0) Z0 :=
+  attr_agree Z_forward_voltage_gain_sound A_forward_voltage_gain_sound m _ _ Z0 o od (fun p => Z_to_A_sound m Z0 p oa) (fun _ => Iff.rfl) (by pin_of_okd)
+
+theorem Z_reverse_voltage_gain_agree (m : M2 K) (Z0 : K) (o : okd_Z_reverse_voltage_gain m Z0) (oa : ok_Z_A m Z0)
+    (od : okd_A_reverse_voltage_gain (Z_to_A m Z0) Z0) : Z_reverse_voltage_gain m Z0 = A_reverse_voltage_gain (Z_to_A m Z0) Z0 :=
+  attr_agree Z_reverse_voltage_gain_sound A_reverse_voltage_gain_sound m _ _ Z0 o od (fun p => Z_to_A_sound m Z0 p oa) (fun _ => Iff.rfl) (by pin_of_okd)
+
+theorem Z_current_gain_agree (m : M2 K) (Z0 : K) (o : okd_Z_current_gain m Z0) (oa : ok_Z_A m Z0)
+    (od : okd_A_current_gain (Z_to_A m Z0) Z0) : Z_current_gain m Z0 = A_current_gain (Z_to_A m Z0) Z0 :=
+  attr_agree Z_current_gain_sound A_current_gain_sound m _ _ Z0 o od (fun p => Z_to_A_sound m Z0 p oa) (fun _ => Iff.rfl) (by pin_of_okd)
+
+theorem Z_forward_current_gain_agree (m : M2 K) (Z0 : K) (o : okd_Z_forward_current_gain m Z0) (oa : ok_Z_A m Z0)
+    (od : okd_A_forward_current_gain (Z_to_A m Z0) Z0) : Z_forward_current_gain m Z0 = A_forward_current_gain (Z_to_A m Z0) Z0 :=
+  attr_agree Z_forward_current_gain_sound A_forward_current_gain_sound m _ _ Z0 o od (fun p => Z_to_A_sound m Z0 p oa) (fun _ => Iff.rfl) (by pin_of_okd)
+
+theorem Z_reverse_current_gain_agree (m : M2 K) (Z0 : K) (o : okd_Z_reverse_current_gain m Z0) (oa : ok_Z_A m Z0)
+    (od : okd_A_reverse_current_gain (Z_to_A m Z0) Z0) : Z_reverse_current_gain m Z0 = A_reverse_current_gain (Z_to_A m Z0) Z0 :=
+  attr_agree Z_reverse_current_gain_sound A_reverse_current_gain_sound m _ _ Z0 o od (fun p => Z_to_A_sound m Z0 p oa) (fun _ => Iff.rfl) (by pin_of_okd)
+
+theorem Z_transadmittance_agree (m : M2 K) (Z0 : K) (o : okd_Z_transadmittance m Z0) (oa : ok_Z_A m Z0)
+    (od : okd_A_transadmittance (Z_to_A m Z0) Z0) : Z_transadmittance m Z0 = A_transadmittance (Z_to_A m Z0) Z0 :=
+  attr_agree Z_transadmittance_sound A_transadmittance_sound m _ _ Z0 o od (fun p => Z_to_A_sound m Z0 p oa) (fun _ => Iff.rfl) (by pin_of_okd)
+
+theorem Z_transimpedance_agree (m : M2 K) (Z0 : K) (o : okd_Z_transimpedance m Z0) (oa : ok_Z_A m Z0)
+    (od : okd_A_transimpedance (Z_to_A m Z0) Z0) : Z_transimpedance m Z0 = A_transimpedance (Z_to_A m Z0) Z0 :=
+  attr_agree Z_transimpedance_sound A_transimpedance_sound m _ _ Z0 o od (fun p => Z_to_A_sound m Z0 p oa) (fun _ => Iff.rfl) (by pin_of_okd)
+
+/-- e.g. the forward voltage gain computed from Z and from Y parameters of the same two-port -/
+example (z y a : M2 K) (Z0 : K) (oz : okd_Z_Vgain12 z Z0) (oy : okd_Y_Vgain12 y Z0)
+    (hz : ∀ p, rel .Z z Z0 p ↔ rel .A a Z0 p) (hy : ∀ p, rel .Y y Z0 p ↔ rel .A a Z0 p) (ha : a.a11 ≠ 0) :
+    Z_Vgain12 z Z0 = Y_Vgain12 y Z0 :=
+  attr_agree Z_Vgain12_sound Y_Vgain12_sound z y a Z0 oz oy hz hy ha
+
+/-- e.g. the open-circuit input impedance from S parameters and from the H matrix obtained by conversion -/
+example (m : M2 K) (Z0 : K) (o : okd_S_Z1oc m Z0) (o' : okd_H_Z1oc (S_to_H m Z0) Z0) (of : ok_S_H m Z0)
+    (og : ok_S_A m Z0) (hpin : (S_to_A m Z0).a21 ≠ 0) : S_Z1oc m Z0 = H_Z1oc (S_to_H m Z0) Z0 :=
+  attr_agree_conv S_Z1oc_sound H_Z1oc_sound S_to_H_sound S_to_A_sound m Z0 o o' of og hpin
+
 /-! ## 4. Cascading multiplies chain matrices in signal order -/
 
 /-- the port seen across a cascade: port 2 of the first stage drives port 1 of the second -/
@@ -1607,7 +2356,8 @@ theorem A_chain3_sound (a b c : M2 K) (Z0 : K) (p q r s t : Port K)
     rel .A (A_chain (A_chain a b) c) Z0 t :=
   A_chain_sound _ _ Z0 s r t h2 (A_chain_sound a b Z0 p q s h1 ha hb) hc
 
-/-- chain matrices of a cascade: the B matrix is the inverse of the A matrix, consistently -/
+/-- (definition check, `rfl`: not a claim about behaviour) `BMatrix.chain` of the inverses is the
+    product of the inverses in the reverse order, as generated -/
 theorem chain_A_B_consistent (a b : M2 K) :
     B_chain (M2.inv a) (M2.inv b) = M2.mul (M2.inv b) (M2.inv a) := rfl
 
